@@ -42,6 +42,16 @@ def assign_outgoing(self, remote):
     return cur
 
 
+def format_address(addr):
+    """ASSUMED (not proved): formatting an OS-supplied peer address for a log line returns
+    text and does not raise (socket.getnameinfo / ipaddress on a valid sockaddr)"""
+    return "<address>"
+
+
+ASSUMED_CONTRACTS = {
+    "someip.sd.format_address": format_address,
+}
+
 CONTRACTS = {
     "someip.sd._SessionStorage.check_received": check_received,
     "someip.sd._SessionStorage.assign_outgoing": assign_outgoing,
